@@ -82,6 +82,44 @@ func stageRef(c stage.Cfg) ref {
 				}
 			}
 		}
+	case "filter-alt":
+		r.names = []string{"got"}
+		for x := 1; x <= c.K; x++ {
+			call(x)
+			if x%2 == 1 {
+				add("got", x)
+			}
+		}
+	case "takewhile-alt":
+		r.names = []string{"got"}
+		for x := 1; x <= c.K; x++ {
+			call(x)
+			if x > 2 {
+				break
+			}
+			add("got", x)
+		}
+	case "partition-alt":
+		r.names = []string{"l", "r"}
+		for x := 1; x <= c.K; x++ {
+			call(x)
+			if x%2 == 1 {
+				add("l", x)
+			} else {
+				add("r", x)
+			}
+		}
+	case "foreach-rep":
+		r.names = []string{"done"}
+		for i := 2; i < 2+2*c.K; i++ {
+			call(i / 2)
+		}
+	case "map-rep":
+		r.names = []string{"got"}
+		for i := 2; i < 2+2*c.K; i++ {
+			call(i / 2)
+			add("got", i-1)
+		}
 	case "filter":
 		r.names = []string{"got"}
 		for x := 1; x <= c.K; x++ {
@@ -190,7 +228,7 @@ func foldAff(k int) stage.Aff {
 }
 
 func hasErrCh(st string) bool {
-	return st == "map" || st == "map2" || st == "fmap" || st == "unfold" || st == "emit"
+	return st == "map" || st == "map2" || st == "fmap" || st == "unfold" || st == "emit" || st == "map-rep"
 }
 
 func stageName(c stage.Cfg) string {
